@@ -940,7 +940,9 @@ def run(ctx: Context, rep) -> None:
         "created resources and the FlatBuffers builder: no scratch state on "
         "self carries values from one example into the next")
     check_writer_state(ctx, rep, "C01.state")
-
+    # nothing read from the dataset's files / the environment is memoised
+    from sa.rules import shared as _shm
+    _shm.check_no_memo(ctx, rep, "C01.memo")
 
 _FBW = "src/sedpack/io/shard/shard_writer_flatbuffer.py"
 _FBR = "src/sedpack/io/flatbuffer/iterate.py"
@@ -948,9 +950,13 @@ _CMP = "src/sedpack/io/compress.py"
 _TFD = "src/sedpack/io/tfrec/tfdata.py"
 _NPW = "src/sedpack/io/shard/shard_writer_np.py"
 SELFTESTS = [
-    dict(rule="C01.tfrec", name="float16-widened-into-floatlist", expect="fire", path=_TFD,
-         old='        elif attribute.dtype == "float32":\n',
-         new='        elif attribute.dtype in ("float32", "float16") and attribute.dtype != "float64":\n'),
+    dict(rule="C01.tfrec", name="float16-widened-into-floatlist", expect="fire",
+         edits=[dict(path=_TFD, old='    "float16": tf.float16,\n    "float64": tf.float64,\n',
+                     new='    "float64": tf.float64,\n'),
+                dict(path=_TFD, old='        elif attribute.dtype == "float32":\n',
+                     new='        elif attribute.dtype in ("float32", "float16"):\n'),
+                dict(path=_TFD, old='            "float16": tf.string,\n',
+                     new='            "float16": tf.float32,\n')]),
     dict(rule="C01.cast", name="same-kind", expect="fire", path=_FBW,
          old='casting="safe"', new='casting="same_kind"'),
     dict(rule="C01.cast", name="equiv-twin", expect="silent", path=_FBW,
